@@ -61,8 +61,8 @@ def enc_eval(e):
             consts.append(f'CV{j} = {(int(nstr) + 1) % 8}')
     twin = (stmt_uc + '\n') if consts else ''
     pad_n = 0
-    src2 = '\n'.join(consts) + ('\n' if consts else '') + f'.org 37\n.byte 1, 2, 3\nhere:\npad\n'
-    for (src, start) in ((stmt + '\n', 0), (src2 + f'{stmt_lc}\npad\n.byte here\n' + ('.org 200\n' + twin if twin else ''), 41)):
+    src2 = '\n'.join(consts) + ('\n' if consts else '') + ('.org 200\n' + twin if twin else '') + f'.org 37\n.byte 1, 2, 3\nhere:\npad\n'
+    for (src, start) in ((stmt + '\n', 0), (src2 + f'{stmt_lc}\npad\n.byte here\n', 41)):
         case = {'config': isa, 'files': {'main.asm': src}, 'start': start, 'end': start + n - 1}
         obs = runner.run_case(case)
         if obs['status'] != 'ok':
